@@ -180,21 +180,15 @@ func (db *DB) collectGarbage() (collectedCount uint64, done bool, err error) {
 			// delete excepted root chunk
 			for _, chunk := range chunkHashes {
 				i := addressToItem(chunk.Cid)
-				pinItem, err := db.pinIndex.Get(i)
-				if err == nil {
-					if pinItem.PinCounter > uint64(chunk.Number) {
-						pinItem.PinCounter -= uint64(chunk.Number)
-						err = db.pinIndex.Put(pinItem)
-						if err != nil {
-							db.logger.Errorf("localstore: collect garbage: update pin state failure: %v", err)
-							break
-						}
-						continue
-					}
-					err = db.pinIndex.DeleteInBatch(batch, pinItem)
-					if err != nil {
-						db.logger.Errorf("localstore: collect garbage: delete chunk pin: %v", err)
-					}
+				// pinned chunks are not collectable: garbage collection
+				// neither removes them nor touches their pin counters
+				pinned, err := db.pinIndex.Has(i)
+				if err != nil {
+					db.logger.Errorf("localstore: collect garbage: read pin state failure: %v", err)
+					break
+				}
+				if pinned {
+					continue
 				}
 				_, err = db.retrievalDataIndex.Get(i)
 				if err == nil {
@@ -237,10 +231,16 @@ func (db *DB) collectGarbage() (collectedCount uint64, done bool, err error) {
 	}
 
 	for _, item := range recycledItems {
-		// delete from retrieve, gc
-		err = db.retrievalDataIndex.DeleteInBatch(batch, item)
+		// delete from retrieve, gc; a pinned root chunk stays stored
+		pinned, err := db.pinIndex.Has(item)
 		if err != nil {
 			return 0, false, err
+		}
+		if !pinned {
+			err = db.retrievalDataIndex.DeleteInBatch(batch, item)
+			if err != nil {
+				return 0, false, err
+			}
 		}
 		err = db.retrievalAccessIndex.DeleteInBatch(batch, item)
 		if err != nil {
